@@ -10,6 +10,7 @@ MODULES = {
     "C06": "rules_stat", "C14": "rules_stat", "C13": "rules_view",
     "C07": "rules_io", "C15": "rules_io", "C16": "rules_io", "C18": "rules_io",
     "C17": "rules_panic", "C19": "rules_panic",
+    "C03": "rules_num", "C04": "rules_num", "C05": "rules_num",
 }
 
 
